@@ -87,9 +87,23 @@ func run(e *core.Env) {
 
 	// ---- generated configuration of R ----
 	var svcs []svcModel
-	friendSet := map[netip.Addr]bool{S1.IP: true, extraFriend.IP: true}
+	// Friends: any subset, including none at all (a friends-only service then admits nobody).
+	friendSet := map[netip.Addr]bool{}
 	rStore := node.BaseStore(R)
-	rStore.FriendConfigs = []config.FriendConfig{{Name: "sone", IP: S1.IP.String()}, {Name: "far", IP: extraFriend.IP.String()}}
+	haveSone := false
+	switch tp.Pick(5, 2, 2, 2) {
+	case 0:
+		friendSet[S1.IP], friendSet[extraFriend.IP], haveSone = true, true, true
+		rStore.FriendConfigs = []config.FriendConfig{{Name: "sone", IP: S1.IP.String()}, {Name: "far", IP: extraFriend.IP.String()}}
+	case 1:
+		friendSet[S1.IP], haveSone = true, true
+		rStore.FriendConfigs = []config.FriendConfig{{Name: "sone", IP: S1.IP.String()}}
+	case 2:
+		friendSet[extraFriend.IP] = true
+		rStore.FriendConfigs = []config.FriendConfig{{Name: "far", IP: extraFriend.IP.String()}}
+	default:
+		e.Probe("config_without_friends")
+	}
 	rStore.Router.Isolate = tp.Chance(1, 2)
 	schemes := []string{"tcp", "udp", "http", "https", "icmp6", "ping6"}
 	usedKey := map[string]bool{}
@@ -154,7 +168,7 @@ func run(e *core.Env) {
 		case 2:
 			sc.For = []string{S2.IP.String()}
 			sm.forIPs[S2.IP] = true
-			if tp.Chance(1, 2) {
+			if haveSone && tp.Chance(1, 2) {
 				sc.For = append(sc.For, "sone")
 				sm.forIPs[S1.IP] = true
 			}
@@ -178,7 +192,7 @@ func run(e *core.Env) {
 		urls = append(urls, s.url)
 	}
 	e.Logf("isolate=%v services=%v", rStore.Router.Isolate, urls)
-	e.Sample("R: isolate=%v friends=[S1,far] services=%v", rStore.Router.Isolate, urls)
+	e.Sample("R: isolate=%v friends=%d services=%v", rStore.Router.Isolate, len(friendSet), urls)
 
 	ms := mesh.Build(e, mesh.Options{
 		MinNodes: 4, MaxNodes: 4, Kinds: []string{"star"}, Tun: true, Idents: ids,
@@ -226,6 +240,9 @@ func run(e *core.Env) {
 	// 5-tuples on which R itself sent something: replies to those are
 	// ordinary stateful behaviour and carry no verdict.
 	rOutbound := map[string]bool{}
+	// ... and the mirror image: 5-tuples on which R accepted something from the
+	// mesh; R's replies on those are the same stateful behaviour.
+	rInbound := map[string]bool{}
 	tuple := func(remote netip.Addr, proto uint8, lport, rport uint16) string {
 		return fmt.Sprintf("%s/%d/%d/%d", remote, proto, lport, rport)
 	}
@@ -307,6 +324,9 @@ func run(e *core.Env) {
 			return 0
 		}())
 		e.Ev("in", uint64(si), uint64(proto), uint64(dport), b2u(delivered), b2u(want))
+		if lie == "" {
+			rInbound[key] = true
+		}
 		if rOutbound[key] {
 			e.Probe("inbound_on_reply_tuple_not_judged")
 			return
@@ -377,6 +397,14 @@ func run(e *core.Env) {
 			}
 			rOutbound[tuple(dst, proto, lp, rp)] = true
 		}
+		if oi != 0 && dst == R.IP && src == o.IP {
+			// traffic from another node's local interface towards R is inbound traffic for R
+			lp, rp := dport, sport
+			if proto == 58 {
+				lp, rp = 0, 0
+			}
+			rInbound[tuple(o.IP, proto, lp, rp)] = true
+		}
 		o.Tun.RecvRaw <- buf[:len(pkt)]
 		simnet.Wait()
 		// Did anything towards dst leave this router? (traffic or the hello before it)
@@ -404,7 +432,25 @@ func run(e *core.Env) {
 		okIso := !isolate || friendSet[dst]
 		allowed := okSrc && okDst && okIso
 		e.Ev("out", uint64(oi), b2u(left), b2u(allowed))
-		if left && !allowed {
+		if e.Trace {
+			e.Logf("  out detail: node=%s src=%s dst=%s proto=%d sport=%d dport=%d isolate=%v friend=%v", names[o.IP], names[src], dst, proto, sport, dport, isolate, friendSet[dst])
+			for _, c := range ms.Net.Crossings[before:] {
+				if c.From == o {
+					e.Logf("    crossing %s->%s len=%d type=%d dst=%s hello=%v", c.From.Name, c.To.Name, len(c.Data), c.Data[4], netip.AddrFrom16([16]byte(c.Data[32:48])), strings.Contains(string(c.Data), "hello"))
+				}
+			}
+		}
+		replyTuple := false
+		if oi == 0 {
+			lp, rp := sport, dport
+			if proto == 58 {
+				lp, rp = 0, 0
+			}
+			replyTuple = rInbound[tuple(dst, proto, lp, rp)]
+		}
+		if replyTuple {
+			e.Probe("outbound_on_reply_tuple_not_judged")
+		} else if left && !allowed {
 			reason := "foreign-source"
 			switch {
 			case !okDst:
